@@ -144,7 +144,9 @@ def sign_case(case):
         case['tx']['vin'][idx][1] = case['funding']['n']
     m = W.tx_from_json(case['tx'])
     tx = libx.mk_tx(m, case.get('mutable', False))
-    r = libx.call('sign/sighash', SignatureHash, CScript(code), tx, idx, ht, allowed=(ValueError,))
+    # (the hash type as the signer's code may hold it: a plain int, an IntEnum member naming it, an int subclass)
+    ht_arg = libx.int_kinds(ht)[(idx + len(code) + ht) % 3][1]
+    r = libx.call('sign/sighash', SignatureHash, CScript(code), tx, idx, ht_arg, allowed=(ValueError,))
     if r[0] == 'exc':
         # SIGHASH_SINGLE without a matching output: only the raw form defines a digest (the historical constant 1)
         h = libx.call('sign/rawsighash', RawSignatureHash, CScript(code), tx, idx, ht)[1][0]
